@@ -244,6 +244,107 @@ def paveba_active_sets(src):
     return out
 
 
+VOGP_AD_GATE = """
+if not self.enable_epsilon_covering:
+    for design_i in self.S:
+        if self.design_space.point_depths[design_i] != self.max_discretization_depth:
+            return
+    else:
+        self.enable_epsilon_covering = True
+"""
+VOGP_AD_REFINE = """
+W = self.S.union(self.P)
+acq = MaxDiagonalAcquisition(self.design_space)
+active_pts = self.design_space.points[list(W)]
+candidate_list, _ = optimize_acqf_discrete(acq, self.batch_size, choices=active_pts)
+candidate_pt = candidate_list[0]
+candidate_i = np.where(np.all(self.design_space.points == candidate_pt, axis=1))[0].item()
+should_refine = self.design_space.should_refine_design(self.model, candidate_i, self.beta)
+if should_refine:
+    child_designs = self.design_space.refine_design(candidate_i)
+    if candidate_i in self.S:
+        self.S.remove(candidate_i)
+        self.S = self.S.union(child_designs)
+    else:
+        self.P.remove(candidate_i)
+        self.P = self.P.union(child_designs)
+else:
+    observations = self.problem.evaluate(candidate_list)
+    self.sample_count += len(candidate_list)
+    self.model.add_sample(candidate_list, observations)
+    self.model.update()
+"""
+
+
+def vogp_ad_gated(src):
+    """VOGP_AD.epsiloncovering = depth gate (latched) + the covering loop nest; evaluate_refine's set bookkeeping"""
+    from py2coq import match_stmts
+    rel = "vopy/algorithms/vogp_ad.py"
+    where = f"{rel}:VOGP_AD.epsiloncovering"
+    fn = src.func(rel, "VOGP_AD.epsiloncovering")
+    body = clean_body(fn)
+    if not body:
+        raise Reject(where, "empty body")
+    match_stmts(VOGP_AD_GATE, body[:1], where)
+    # the rest is the standard covering nest: translate it as a method of its own
+    rest = ast.FunctionDef(name="epsiloncovering_body", args=fn.args, body=body[1:], decorator_list=[], returns=None, lineno=fn.lineno)
+    txt = f"(* {where} *)\n"
+    txt += "Definition vogp_ad_gate (depth : nat -> nat) (maxd : nat) (enabled : bool) (S : list nat) : bool :=\n  enabled || forallb (fun design_i => Nat.eqb (depth design_i) maxd) S.\n"
+    txt += translate_method(rest, "vogp_ad_epsiloncovering_body", where, "vogp_ad")
+    txt += ("Definition vogp_ad_epsiloncovering (E : penv) (depth : nat -> nat) (maxd : nat) (enabled : bool) (S P U : list nat)\n"
+            "  : bool * (list nat * list nat * list nat) :=\n"
+            "  if vogp_ad_gate depth maxd enabled S then (true, vogp_ad_epsiloncovering_body E S P U) else (enabled, (S, P, U)).\n")
+    where2 = f"{rel}:VOGP_AD.evaluate_refine"
+    match_stmts(VOGP_AD_REFINE, clean_body(src.func(rel, "VOGP_AD.evaluate_refine")), where2)
+    txt += f"(* {where2}: the node chosen is refined (replaced by its children in the set it belongs to) or sampled *)\n"
+    txt += ("Definition vogp_ad_refine_sets (candidate_i : nat) (child_designs S P : list nat) : list nat * list nat :=\n"
+            "  if mem candidate_i S then (union (diff S [candidate_i]) child_designs, P)\n"
+            "  else (S, union (diff P [candidate_i]) child_designs).\n")
+    return txt
+
+
+EVAL_SINGLE = """
+M_A = M_set
+acq = M_acq
+active_pts = self.design_space.points[list(M_A)]
+candidate_list, _ = optimize_acqf_discrete(acq, self.batch_size, choices=active_pts)
+observations = self.problem.evaluate(candidate_list)
+self.sample_count += len(candidate_list)
+self.model.add_sample(candidate_list, observations)
+self.model.update()
+"""
+EVAL_DECOUPLED = """
+M_A = M_set
+acq = M_acq
+active_pts = self.design_space.points[list(M_A)]
+candidate_list, acq_values, eval_indices = optimize_decoupled_acqf_discrete(acq, self.batch_size, choices=active_pts)
+observations = self.problem.evaluate(candidate_list, eval_indices)
+self.sample_count += len(candidate_list)
+if self.costs is not None:
+    self.total_cost += np.sum(self.costs[eval_indices])
+self.model.add_sample(candidate_list, observations, eval_indices)
+self.model.update()
+"""
+ACQS = {"MaxDiagonalAcquisition(self.design_space)": "AcqMaxDiagonal", "SumVarianceAcquisition(self.model)": "AcqSumVariance",
+        "MaxVarianceDecoupledAcquisition(self.model, costs=self.costs)": "AcqMaxVarianceDecoupled"}
+
+
+def gp_evaluating(src, a, rel, cls):
+    """evaluating() of the GP algorithms: choices = points of the active set, batch picked by the acquisition optimiser,
+    exactly the picked candidates are evaluated / counted / (costed) / stored"""
+    from py2coq import match_stmts
+    where = f"{rel}:{cls}.evaluating"
+    body = clean_body(src.func(rel, f"{cls}.evaluating"))
+    dec = a == "paveba_partial_gp"
+    b = match_stmts(EVAL_DECOUPLED if dec else EVAL_SINGLE, body, where)
+    acq = ast.unparse(b["M_acq"])
+    if acq not in ACQS:
+        raise Reject(where, f"unknown acquisition `{acq}`")
+    g = M(where, a).setexpr(b["M_set"])
+    return (f"(* {where} *)\nDefinition {a}_evaluating (S P U : list nat) : eflow :=\n"
+            f"  mkeflow {g} {ACQS[acq]} {'true' if dec else 'false'} true.\n")
+
+
 SECTION_HDR = """(* ---------------- {a} ---------------- *)
 """
 
@@ -260,3 +361,7 @@ def run(src, out, hdr):
                 return f"(* {rel}:{cls}.{meth} *)\n" + translate_method(fn, f"{a}_{meth}", f"{rel}:{cls}.{meth}", a)
             out.attempt(f, f"{a}.{meth}", thunk)
     out.attempt(f, "paveba.active_sets", lambda: paveba_active_sets(src))
+    for a in ("paveba_gp", "paveba_partial_gp", "vogp", "epal"):
+        rel, cls, _ = ALGOS[a]
+        out.attempt(f, f"{a}.evaluating", lambda a=a, rel=rel, cls=cls: gp_evaluating(src, a, rel, cls))
+    out.attempt(f, "vogp_ad.gated_covering", lambda: vogp_ad_gated(src))
